@@ -341,13 +341,73 @@ func parseDependency
     decreases len(input.Data) - input.Index
 
 
-// architecture names
+// architecture names: up to two dashes split the name into ABI-OS-CPU; a two-part name leaves the ABI open ("any"), a
+// lone "any"/"all" is all three parts, any other lone name is gnu-linux-<name> (C05: a wildcard is parsed as written)
+pure func dash1(s string) int { indexByte(s, 45, 0) }
+pure func dash2(s string) int { dash1(s) < 0 ? -1 : indexByte(s, 45, dash1(s) + 1) }
+pure func archABI(s string) string { dash1(s) < 0 ? ((s == "all" || s == "any") ? s : "gnu") : (dash2(s) < 0 ? "any" : s[:dash1(s)]) }
+pure func archOS(s string) string { dash1(s) < 0 ? ((s == "all" || s == "any") ? s : "linux") : (dash2(s) < 0 ? s[:dash1(s)] : s[dash1(s)+1:dash2(s)]) }
+pure func archCPU(s string) string { dash1(s) < 0 ? s : (dash2(s) < 0 ? s[dash1(s)+1:] : s[dash2(s)+1:]) }
+
+// rendering an architecture is the inverse of parsing it (C05): for every triple with non-empty parts whose ABI and OS
+// contain no dash - what parsing an architecture name gives - the rendered name parses back to the same triple, so a
+// wildcard is neither widened nor narrowed
+lemma idx_least(s string, c int, from int, k int)
+  requires 0 <= from && from <= k && k < len(s) && (indexByte(s, c, from) == -1 || k < indexByte(s, c, from))
+  ensures s[k] != c
+  decreases k - from
+  { if from < k { if s[from] != c { idx_least(s, c, from + 1, k) } } }
+
+lemma idx_is(s string, c int, from int, k int)
+  requires 0 <= from && from <= k && k < len(s) && s[k] == c && (forall j int :: from <= j && j < k ==> s[j] != c)
+  ensures indexByte(s, c, from) == k
+  decreases k - from
+  { if from < k { idx_is(s, c, from + 1, k) } }
+
+lemma idx_none(s string, c int, from int)
+  requires 0 <= from && (forall j int :: from <= j && j < len(s) ==> s[j] != c)
+  ensures indexByte(s, c, from) == -1
+  decreases len(s) - from
+  { if from < len(s) { idx_none(s, c, from + 1) } }
+
+// the two dashed forms, once and for all: where the dashes are and what lies between them
+lemma render2(o string, c string)
+  requires dash1(o) < 0 && dash1(c) < 0
+  ensures dash1(o ++ "-" ++ c) == len(o) && dash2(o ++ "-" ++ c) == -1
+  ensures (o ++ "-" ++ c)[:len(o)] == o && (o ++ "-" ++ c)[len(o)+1:] == c
+  {
+    forall j int { idx_least(o, 45, 0, j) }
+    forall j int { idx_least(c, 45, 0, j) }
+    idx_is(o ++ "-" ++ c, 45, 0, len(o))
+    idx_none(o ++ "-" ++ c, 45, len(o) + 1)
+  }
+
+lemma render3(b string, o string, c string)
+  requires dash1(b) < 0 && dash1(o) < 0
+  ensures dash1(b ++ "-" ++ o ++ "-" ++ c) == len(b) && dash2(b ++ "-" ++ o ++ "-" ++ c) == len(b) + 1 + len(o)
+  ensures (b ++ "-" ++ o ++ "-" ++ c)[:len(b)] == b && (b ++ "-" ++ o ++ "-" ++ c)[len(b)+1:len(b)+1+len(o)] == o && (b ++ "-" ++ o ++ "-" ++ c)[len(b)+2+len(o):] == c
+  {
+    forall j int { idx_least(b, 45, 0, j) }
+    forall j int { idx_least(o, 45, 0, j) }
+    idx_is(b ++ "-" ++ o ++ "-" ++ c, 45, 0, len(b))
+    assert indexByte(b ++ "-" ++ o ++ "-" ++ c, 45, 0) == len(b)
+    assert forall j int :: len(b) + 1 <= j && j < len(b) + 1 + len(o) ==> (b ++ "-" ++ o ++ "-" ++ c)[j] == o[j - len(b) - 1]
+    idx_is(b ++ "-" ++ o ++ "-" ++ c, 45, len(b) + 1, len(b) + 1 + len(o))
+    assert indexByte(b ++ "-" ++ o ++ "-" ++ c, 45, len(b) + 1) == len(b) + 1 + len(o)
+  }
+
+func Arch.String
+  ensures [rt] dash1(a.ABI) < 0 && dash1(a.OS) < 0 && a.ABI != "" && a.OS != "" && a.CPU != "" ==> archABI(result) == a.ABI && archOS(result) == a.OS && archCPU(result) == a.CPU
+    by { render3(a.ABI, a.OS, a.CPU); render2(a.OS, a.CPU) }
+
 func parseArchInto
   requires ret != nil
+  ensures result == nil && ret.ABI == archABI(arch) && ret.OS == archOS(arch) && ret.CPU == archCPU(arch)
   modifies ret.ABI, ret.OS, ret.CPU
 
 func ParseArch
-  ensures result1 == nil ==> result0 != nil && fresh(result0)
+  ensures result1 == nil && result0 != nil && fresh(result0)
+  ensures result0.ABI == archABI(arch) && result0.OS == archOS(arch) && result0.CPU == archCPU(arch)
 
 func ParseArchitectures
   ensures result1 != nil ==> result0 == nil
@@ -355,8 +415,10 @@ func ParseArchitectures
     invariant -1 <= rangeindex && rangeindex < len(arches)
     decreases len(arches) - rangeindex
 
+// decoding into an existing value gives the same triple as ParseArch, whatever the value held before
 func (*Arch).UnmarshalControl
   requires arch != nil
+  ensures result == nil && arch.ABI == archABI(data) && arch.OS == archOS(data) && arch.CPU == archCPU(data)
   modifies arch.ABI, arch.OS, arch.CPU
 
 // a value xor an error
@@ -371,5 +433,7 @@ property C18: parseArchInto, ParseArch, ParseArchitectures, (*Arch).UnmarshalCon
 property C04: (*input).Peek, (*input).Next, eatWhitespace, parsePossibilityOperator, parsePossibilityNumber, parsePossibilityVersion,
   parsePossibilityArch, parsePossibilityArchs, parsePossibilityStage, parsePossibilityStageSet, parsePossibilityControllers,
   parseMultiarch, parseSubstvar, parsePossibility, parseRelation, parseDependency, Parse
+
+property C05: lemma idx_least, lemma idx_is, lemma idx_none, lemma render2, lemma render3, Arch.String[rt], parseArchInto, ParseArch, (*Arch).UnmarshalControl
 
 @*/
